@@ -270,7 +270,7 @@ def handle (st : DState) (line : String) : DState × String :=
   | ["faults", "reset", src, dst] => let s0 : Faults.St := ⟨parseNats src, parseNats dst, .start⟩; ({ st with faults := s0 }, showFaults s0)
   | ["faults", "step", rep, c, l, x] =>
     let lab : Faults.Label := if l == "step" then .step else if l == "cancel" then .cancel
-      else if l == "oexp" then .otherExpunge x.toNat! else .otherAppend x.toNat!
+      else if l == "oexp" then .otherExpunge x.toNat! else if l == "ocopy" then .otherCopyDst x.toNat! else .otherAppend x.toNat!
     match Faults.step (rep == "1") c.toNat! st.faults lab with
     | some s' => ({ st with faults := s' }, showFaults s')
     | none => (st, "DISABLED")
